@@ -7,9 +7,13 @@
 //!               3: the destination sends M, and 300 ms later resets its connection (SO_LINGER 0: RST)
 //!               4: the client uploads N, and 300 ms later fails: its TCP connection is reset (HTTP/1.1, HTTP/2), its request stream is
 //!                  reset (HTTP/3); the destination keeps its side open whatever it sees
+//!               5: the same failure of the client while the tunnel is back-pressured: the destination does not read for 3 s, the client
+//!                  uploads until nothing more is taken from it for 500 ms (or 32 MiB / 2.2 s have gone), fails as in 4, and the destination
+//!                  then reads on (N is not used: the number of bytes handed over is reported)
 //! out: [996] | [status, bytes the destination received, they are the client's (0|1), how the upload ended at the destination (0 not yet | 1 end of stream | 2 error),
 //!               bytes the client received, they are the destination's (0|1), how the download ended at the client (0 not within 10 s | 1 clean end | 2 failure: reset / error / connection lost),
-//!               the endpoint's connection to the destination (0 still held open by the endpoint 5 s later | 1 released | 2 cannot tell here), ms until it was released]
+//!               the endpoint's connection to the destination (0 still held open by the endpoint 5 s later | 1 released | 2 cannot tell here), ms until it was released,
+//!               bytes the client handed to its transport before it ended or failed]
 //! Whether the endpoint still holds its side of the connection to the destination is read from /proc/net/tcp (the socket with the
 //! destination's peer address as local address: present with an owner = held; absent, orphaned or in TIME_WAIT = released).
 use crate::util::*;
@@ -20,6 +24,13 @@ use std::time::Duration;
 use tokio::io::{AsyncReadExt, AsyncWriteExt};
 use tokio::net::TcpListener;
 use trusttunnel::settings::{Http1Settings, Http2Settings, ListenProtocolSettings, QuicSettings, Settings};
+
+/// scenario 5: how long the destination leaves its socket unread, the most the client uploads, for how long it tries, and after how
+/// long without a byte taken it considers the tunnel stalled
+const STALL_MS: u64 = 3000;
+const STALL_CAP: usize = 32 << 20;
+const STALL_UPLOAD_MS: u64 = 2200;
+const STALL_QUIET_MS: u64 = 500;
 
 fn pattern(n: usize, salt: usize) -> Vec<u8> {
     (0..n).map(|i| ((i * 31 + (i >> 8) * 7 + (i >> 16) + salt) & 0xff) as u8).collect()
@@ -102,6 +113,10 @@ pub fn run(toks: Vec<Tok>) -> Vec<Tok> {
                         } else {
                             writer = Some(tokio::spawn(async move { w }));
                         }
+                        if scen == 5 {
+                            // the destination does not read for a while: the whole upload path fills up
+                            tokio::time::sleep(Duration::from_millis(STALL_MS)).await;
+                        }
                         loop {
                             match r.read(&mut buf).await {
                                 Ok(n) if n > 0 => seen.got.lock().unwrap().extend_from_slice(&buf[..n]),
@@ -149,7 +164,9 @@ pub fn run(toks: Vec<Tok>) -> Vec<Tok> {
         let Some(ep) = crate::front::start(make, crate::ctxutil::basic_hosts, None).await else {
             return vec![vec![996]];
         };
-        let data = pattern(n_up, 0);
+        let data = pattern(if scen == 5 { STALL_CAP } else { n_up }, 0);
+        // what the client handed to its transport (scenario 5: counted while it uploads)
+        let mut uploaded = data.len();
         let mut back: Vec<u8> = vec![];
         let mut status = 0u128;
         // 0 = no end within the time allowed, 1 = clean end, 2 = failure
@@ -225,6 +242,22 @@ pub fn run(toks: Vec<Tok>) -> Vec<Tok> {
                         upload_settled(seen.clone(), 0).await;
                     }
                     3 => end = read_all(&mut rd, &mut back, patience).await,
+                    5 => {
+                        uploaded = 0;
+                        let t0 = tokio::time::Instant::now();
+                        while uploaded < data.len() && t0.elapsed() < Duration::from_millis(STALL_UPLOAD_MS) {
+                            let piece = &data[uploaded..data.len().min(uploaded + 32 * 1024)];
+                            match tokio::time::timeout(Duration::from_millis(STALL_QUIET_MS), wr.write(piece)).await {
+                                Ok(Ok(n)) if n > 0 => uploaded += n,
+                                _ => break,
+                            }
+                        }
+                        log::info!("the client handed over {} bytes in {} ms", uploaded, t0.elapsed().as_millis());
+                        let s = rd.unsplit(wr);
+                        let _ = s.get_ref().0.set_linger(Some(Duration::from_secs(0)));
+                        drop(s); // RST
+                        upload_settled(seen.clone(), 0).await;
+                    }
                     _ => {
                         let _ = wr.write_all(&data).await;
                         let _ = wr.flush().await;
@@ -238,7 +271,7 @@ pub fn run(toks: Vec<Tok>) -> Vec<Tok> {
             }
         } else if proto == 2 {
             let Some(s) = crate::front::tls_connect(ep.addr, "localhost", &[b"h2"]).await else { return vec![vec![996]] };
-            if scen == 4 {
+            if scen == 4 || scen == 5 {
                 // the connection task owns the socket: when that task is aborted the socket is closed, with RST
                 let _ = s.get_ref().0.set_linger(Some(Duration::from_secs(0)));
             }
@@ -318,6 +351,27 @@ pub fn run(toks: Vec<Tok>) -> Vec<Tok> {
                                     upload_settled(seen.clone(), 0).await;
                                 }
                                 3 => end = read_all(&mut body, &mut back, patience).await,
+                                5 => {
+                                    uploaded = 0;
+                                    let t0 = tokio::time::Instant::now();
+                                    while uploaded < data.len() && t0.elapsed() < Duration::from_millis(STALL_UPLOAD_MS) {
+                                        let want = (data.len() - uploaded).min(32 * 1024);
+                                        stream.reserve_capacity(want);
+                                        match tokio::time::timeout(Duration::from_millis(STALL_QUIET_MS), futures::future::poll_fn(|cx| stream.poll_capacity(cx))).await {
+                                            Ok(Some(Ok(n))) if n > 0 => {
+                                                let n = n.min(want);
+                                                if stream.send_data(bytes::Bytes::copy_from_slice(&data[uploaded..uploaded + n]), false).is_err() {
+                                                    break;
+                                                }
+                                                uploaded += n;
+                                            }
+                                            Ok(Some(Ok(_))) => continue,
+                                            _ => break,
+                                        }
+                                    }
+                                    log::info!("the client handed over {} bytes in {} ms", uploaded, t0.elapsed().as_millis());
+                                    keep = Some((stream, body));
+                                }
                                 _ => {
                                     let _ = send_all(&mut stream, &data, 16384, 0).await;
                                     upload_settled(seen.clone(), n_up).await;
@@ -329,7 +383,7 @@ pub fn run(toks: Vec<Tok>) -> Vec<Tok> {
                     }
                 }
             }
-            if scen != 4 {
+            if scen != 4 && scen != 5 {
                 // the last frames of the client go out
                 tokio::time::sleep(Duration::from_millis(200)).await;
             }
@@ -337,6 +391,9 @@ pub fn run(toks: Vec<Tok>) -> Vec<Tok> {
             let _ = driver.await;
             drop(keep);
             drop(send);
+            if scen == 5 {
+                upload_settled(seen.clone(), 0).await;
+            }
         } else {
             let Some(mut c) = crate::front::H3Client::connect(ep.addr, "localhost").await else { return vec![vec![996]] };
             let hs = vec![(b":method".to_vec(), b"CONNECT".to_vec()), (b":authority".to_vec(), canary.to_string().into_bytes()), (b"user-agent".to_vec(), b"verif".to_vec())];
@@ -365,6 +422,27 @@ pub fn run(toks: Vec<Tok>) -> Vec<Tok> {
                             }
                         }
                         3 => c.drive(patience, ended).await,
+                        5 => {
+                            uploaded = 0;
+                            let t0 = tokio::time::Instant::now();
+                            let mut last = t0;
+                            while uploaded < data.len() && last.elapsed() < Duration::from_millis(STALL_QUIET_MS) && t0.elapsed() < Duration::from_millis(STALL_UPLOAD_MS) {
+                                let n = c.send_some(id, &data[uploaded..data.len().min(uploaded + 32 * 1024)]);
+                                if n > 0 {
+                                    uploaded += n;
+                                    last = tokio::time::Instant::now();
+                                } else {
+                                    c.drive(Duration::from_millis(10), |_| false).await;
+                                }
+                            }
+                            log::info!("the client handed over {} bytes in {} ms", uploaded, t0.elapsed().as_millis());
+                            // RESET_STREAM: the client gives its upload up, the connection lives on
+                            c.reset_stream(id, 0x10c);
+                            let deadline = tokio::time::Instant::now() + patience;
+                            while seen.end.load(Ordering::SeqCst) == 0 && tokio::time::Instant::now() < deadline {
+                                c.drive(Duration::from_millis(20), |_| false).await;
+                            }
+                        }
                         _ => {
                             c.send_body(id, &data, false).await;
                             let deadline = tokio::time::Instant::now() + patience;
@@ -382,19 +460,20 @@ pub fn run(toks: Vec<Tok>) -> Vec<Tok> {
                     back = st.data.clone();
                 }
             }
-            if scen == 4 {
+            if scen == 4 || scen == 5 {
                 // the connection stays: what is observed below is the answer to the stream's reset alone
-                let out = finish(&seen, canary, status, &data, &back, m_down, end, Some(&mut c)).await;
+                let out = finish(&seen, canary, status, &data, uploaded, &back, m_down, end, Some(&mut c)).await;
                 c.close();
                 return out;
             }
             c.close();
         }
-        finish(&seen, canary, status, &data, &back, m_down, end, None).await
+        finish(&seen, canary, status, &data, uploaded, &back, m_down, end, None).await
     })
 }
 
-async fn finish(seen: &Arc<Seen>, canary: SocketAddr, status: u128, data: &[u8], back: &[u8], m_down: usize, end: u128, mut h3: Option<&mut crate::front::H3Client>) -> Vec<Tok> {
+#[allow(clippy::too_many_arguments)]
+async fn finish(seen: &Arc<Seen>, canary: SocketAddr, status: u128, data: &[u8], uploaded: usize, back: &[u8], m_down: usize, end: u128, mut h3: Option<&mut crate::front::H3Client>) -> Vec<Tok> {
     // is the endpoint's side of the connection to the destination still open? (up to 5 s for it to go)
     let peer = *seen.peer.lock().unwrap();
     let (mut released, mut waited) = (2u128, 0u128);
@@ -421,7 +500,7 @@ async fn finish(seen: &Arc<Seen>, canary: SocketAddr, status: u128, data: &[u8],
     }
     let got = seen.got.lock().unwrap().clone();
     let answer = pattern(m_down, 77);
-    let up_same = got.len() <= data.len() && got[..] == data[..got.len()];
+    let up_same = got.len() <= uploaded && got.len() <= data.len() && got[..] == data[..got.len()];
     let down_same = back.len() <= answer.len() && back[..] == answer[..back.len()];
-    vec![vec![status, got.len() as u128, up_same as u128, seen.end.load(Ordering::SeqCst) as u128, back.len() as u128, down_same as u128, end, released, waited]]
+    vec![vec![status, got.len() as u128, up_same as u128, seen.end.load(Ordering::SeqCst) as u128, back.len() as u128, down_same as u128, end, released, waited, uploaded as u128]]
 }
